@@ -136,8 +136,28 @@ var recurTitles = []string{"Overview", "Summary | notes", "Übersicht", "Usage",
 //     header rows in every spelling the format has, row-header cells, a footer group;
 //   - recurring heading texts: in half of the documents the heading texts come from a pool of two or
 //     three titles, so equal titles occur at the same and at different levels, next to each other
-//     and with other headings in between.
+//     and with other headings in between;
+//   - where on its sheet a worksheet's table lies (Place, XLSX): in A1 as before in two of five tables,
+//     else under 1..9 blank rows and/or right of 1..6 blank columns, the blank rows in every spelling
+//     the writer has, with or without blank rows / cells after the table. Drawn from a fork of r taken
+//     before anything else, so the other decorations are what they were.
 func decorateDoc(r *hx.Rng, d *Doc, format string) {
+	pr := r.Fork(0x706c616365)
+	if format == "xlsx" {
+		for i := range d.Blocks {
+			if b := &d.Blocks[i]; b.Kind == "table" && !pr.Chance(2, 5) {
+				b.At = Place{Blank: pr.Intn(PlaceBlanks), Below: pr.Bool()}
+				switch pr.Intn(4) {
+				case 0: // blank columns only: the table still starts in row 1
+					b.At.Col = pr.Range(1, 6)
+				case 1:
+					b.At.Row, b.At.Col = hx.Pick(pr, []int{1, 1, 2, 2, 3, 9}), pr.Range(1, 6)
+				default:
+					b.At.Row = hx.Pick(pr, []int{1, 1, 2, 2, 3, 9})
+				}
+			}
+		}
+	}
 	pool := append([]string(nil), recurTitles...)
 	hx.Shuffle(r, pool)
 	pool = pool[:r.Range(2, 3)]
@@ -187,20 +207,49 @@ func writeDoc(format string, d Doc) []byte {
 	case "html":
 		return WriteHTML(d)
 	}
-	// xlsx: one sheet per table, cells as inline strings
+	// xlsx: one sheet per table, cells as inline strings, the table placed on the sheet as b.At says
 	var wb writers.XWorkbook
 	for i, b := range d.Blocks {
 		sh := writers.XSheet{Name: fmt.Sprintf("Sheet%d", i+1), Path: fmt.Sprintf("worksheets/sheet%d.xml", i+1), RID: fmt.Sprintf("rId%d", i+1)}
+		p := b.At
+		width := gridCols(b.Rows)
+		ref := func(ci, rn int) string { return xlsx.IndexToColumn(ci) + fmt.Sprint(rn) }
+		blankRow := func(rn int) writers.XRow {
+			xr := writers.XRow{R: rn}
+			if p.Blank == 2 {
+				for ci := 0; ci < p.Col+width+1; ci++ {
+					xr.Cells = append(xr.Cells, writers.XCell{Ref: ref(ci, rn)})
+				}
+			}
+			return xr
+		}
+		if p.Blank >= 1 {
+			for rn := 1; rn <= p.Row; rn++ {
+				sh.Rows = append(sh.Rows, blankRow(rn))
+			}
+		}
 		for ri, row := range b.Rows {
-			xr := writers.XRow{R: ri + 1}
+			rn := p.Row + ri + 1
+			xr := writers.XRow{R: rn}
+			if p.Blank == 2 {
+				for ci := 0; ci < p.Col; ci++ {
+					xr.Cells = append(xr.Cells, writers.XCell{Ref: ref(ci, rn)})
+				}
+			}
 			for ci, cell := range row {
 				if cell.Text == "" {
 					continue
 				}
 				v := cell.Text
-				xr.Cells = append(xr.Cells, writers.XCell{Ref: xlsx.IndexToColumn(ci) + fmt.Sprint(ri+1), T: "inlineStr", Is: &v})
+				xr.Cells = append(xr.Cells, writers.XCell{Ref: ref(p.Col+ci, rn), T: "inlineStr", Is: &v})
+			}
+			if p.Blank == 2 && p.Below {
+				xr.Cells = append(xr.Cells, writers.XCell{Ref: ref(p.Col+width, rn)})
 			}
 			sh.Rows = append(sh.Rows, xr)
+		}
+		if p.Below && p.Blank >= 1 {
+			sh.Rows = append(sh.Rows, blankRow(p.Row+len(b.Rows)+1))
 		}
 		wb.Sheets = append(wb.Sheets, sh)
 	}
@@ -359,12 +408,21 @@ func runDocument(c *hx.Ctx, idx int, format string, keep bool) {
 	if md2 != md1 {
 		checkDocument(c, format, d, o, md2, kase, "tabula.Open.ToMarkdownWithOptions")
 	}
+	// one Reader, several calls (history.go)
+	runHistory(c, format, path, d, genHistory(c.Rng.Fork(uint64(56+fi)<<40|uint64(idx)), 4+idx%4), kase)
 	nontrivial := false
 	for _, b := range d.Blocks {
 		if b.Kind != "para" {
 			nontrivial = true
 		}
 		c.Count(format + " block " + b.Kind)
+		if format == "xlsx" {
+			c.Count(fmt.Sprintf("xlsx table blank rows above=%d", b.At.Row))
+			c.Count(fmt.Sprintf("xlsx table blank columns left=%d", b.At.Col))
+			if b.At.Row > 0 {
+				c.Count(fmt.Sprintf("xlsx blank rows spelled=%d", b.At.Blank))
+			}
+		}
 	}
 	c.Count(fmt.Sprintf("opts offset=%d", o.HeadingLevelOffset))
 	c.Count(fmt.Sprintf("opts max=%d", o.MaxHeadingLevel))
